@@ -81,11 +81,19 @@ fn epfd_opt(v: &Option<ais::messages::types::EpfdType>, o: &mut S) { opt('u', v,
 fn navstatus_opt(v: &Option<ais::messages::position_report::NavigationStatus>, o: &mut S) { opt('u', v, o, |x, o| tenum(nav_status_index(x), o)); }
 fn optu<T: Copy + Into<u64>>(kind: char, v: &Option<T>, o: &mut S) { opt(kind, v, o, |x, o| ti((*x).into(), o)); }
 
-// RateOfTurn keeps its i8 private; its Debug output is `RateOfTurn { raw: <i8> }`
+// RateOfTurn keeps its i8 private.  Its raw value is read from the `raw: <i8>` field of its Debug output wherever that
+// stands in it (a hand-written Debug may print more); when no such field is printed, it is recovered through the public
+// API: the code d with `RateOfTurn::parse(d) == Some(r)`.
 fn rot_raw(r: &ais::messages::navigation::RateOfTurn) -> i64 {
     let s = format!("{:?}", r);
-    let s = s.trim_start_matches("RateOfTurn { raw: ").trim_end_matches(" }");
-    s.parse::<i64>().unwrap_or(9999)
+    if let Some(i) = s.find("raw: ") {
+        let t: String = s[i + 5..].chars().take_while(|c| *c == '-' || c.is_ascii_digit()).collect();
+        if let Ok(v) = t.parse::<i64>() { return v; }
+    }
+    for d in 0..=255u8 {
+        if ais::messages::navigation::RateOfTurn::parse(d) == Some(*r) { return (d as i8) as i64; }
+    }
+    9999
 }
 
 fn message(m: &AisMessage, o: &mut S) {
@@ -257,6 +265,9 @@ fn error(e: &ais::errors::Error, o: &mut S) {
     match e {
         ais::errors::Error::Nmea { .. } => { o.push_str("(k c2)"); }
         ais::errors::Error::Checksum { expected, found } => { write!(o, "(k c3 i{} i{})", expected, found).unwrap(); }
+        // a variant added by a change of the crate: an error of the general kind (the properties know two kinds)
+        #[allow(unreachable_patterns)]
+        _ => { o.push_str("(k c2)"); }
     }
 }
 
